@@ -260,6 +260,92 @@ def c2(repo: Repo) -> RuleResult:
 STANDARD = {8, 16, 32, 64}
 
 
+def _fold_int(e: ast.AST, env: Dict[str, int]) -> Optional[int]:
+    if isinstance(e, ast.Constant) and isinstance(e.value, int) and not isinstance(e.value, bool):
+        return e.value
+    if isinstance(e, ast.Name):
+        return env.get(e.id)
+    if isinstance(e, ast.UnaryOp) and isinstance(e.op, ast.USub):
+        v = _fold_int(e.operand, env)
+        return None if v is None else -v
+    if isinstance(e, ast.BinOp):
+        l, r = _fold_int(e.left, env), _fold_int(e.right, env)
+        if l is None or r is None:
+            return None
+        try:
+            return {ast.Add: lambda: l + r, ast.Sub: lambda: l - r, ast.Mult: lambda: l * r, ast.LShift: lambda: l << r, ast.Pow: lambda: l ** r if 0 <= r <= 128 else None, ast.FloorDiv: lambda: l // r}[type(e.op)]()
+        except (KeyError, ZeroDivisionError, ValueError):
+            return None
+    return None
+
+
+def _wrap_semantics(fn: ast.FunctionDef, funcs: Dict[str, ast.FunctionDef], env: Dict[str, int], depth: int = 0) -> Optional[Tuple[int, int, int]]:
+    """(threshold T, a, b): the function returns arg + a for arg < T and
+    arg + b for arg >= T.  Follows one level of `return helper(i, N)`."""
+    params = [a.arg for a in fn.args.args]
+    if not params:
+        return None
+    arg = params[0]
+    body = [st for st in fn.body if not (isinstance(st, ast.Expr) and isinstance(st.value, ast.Constant))]
+    env = dict(env)
+    for st in body[:-1]:
+        if isinstance(st, ast.Assign) and isinstance(st.targets[0], ast.Name):
+            v = _fold_int(st.value, env)
+            if v is not None:
+                env[st.targets[0].id] = v
+    test = then = other = None
+    last = body[-1] if body else None
+    if isinstance(last, ast.Return) and isinstance(last.value, ast.IfExp):
+        test, then, other = last.value.test, last.value.body, last.value.orelse
+    elif isinstance(last, ast.Return) and len(body) >= 2 and isinstance(body[-2], ast.If) and len(body[-2].body) == 1 and isinstance(body[-2].body[0], ast.Return) and not body[-2].orelse:
+        test, then, other = body[-2].test, body[-2].body[0].value, last.value
+    elif isinstance(last, ast.Return) and isinstance(last.value, ast.Call) and isinstance(last.value.func, ast.Name) and last.value.func.id in funcs and depth < 2:
+        h = funcs[last.value.func.id]
+        hp = [a.arg for a in h.args.args]
+        if not last.value.args or src_of(last.value.args[0]) != arg:
+            return None
+        henv = {}
+        for pn, a in list(zip(hp, last.value.args))[1:]:
+            v = _fold_int(a, env)
+            if v is None:
+                return None
+            henv[pn] = v
+        return _wrap_semantics(h, funcs, henv, depth + 1)
+    if test is None or not isinstance(test, ast.Compare) or len(test.ops) != 1:
+        return None
+    l, r, op = test.left, test.comparators[0], type(test.ops[0])
+    flip = {ast.Lt: ast.Gt, ast.Gt: ast.Lt, ast.LtE: ast.GtE, ast.GtE: ast.LtE}
+    if src_of(r) == arg:
+        l, r, op = r, l, flip.get(op)
+    if src_of(l) != arg or op is None:
+        return None
+    k = _fold_int(r, env)
+    if k is None:
+        return None
+
+    def offset(e: ast.AST) -> Optional[int]:
+        if src_of(e) == arg:
+            return 0
+        if isinstance(e, ast.BinOp) and isinstance(e.op, (ast.Sub, ast.Add)) and src_of(e.left) == arg:
+            v = _fold_int(e.right, env)
+            return None if v is None else (-v if isinstance(e.op, ast.Sub) else v)
+        return None
+
+    a, b = offset(then), offset(other)
+    if a is None or b is None:
+        return None
+    # normalise to (T, below, from T on)
+    if op is ast.Lt:
+        return (k, a, b)
+    if op is ast.LtE:
+        return (k + 1, a, b)
+    if op is ast.GtE:
+        return (k, b, a)
+    if op is ast.Gt:
+        return (k + 1, b, a)
+    return None
+
+
 def _fold_pred(e: ast.AST, var: str, val: int) -> Optional[Any]:
     """Constant folding of a pure arithmetic predicate over one integer
     variable (finite split of the width domain 1..64; nothing of bitproto runs)."""
@@ -459,21 +545,12 @@ def d4(repo: Repo) -> RuleResult:
             res.unsure(f"D4: bp.int{N} vanished")
             continue
         rets = _rets(fn.node)
-        ok = False
-        if len(rets) == 1 and isinstance(rets[0].value, ast.IfExp):
-            ie = rets[0].value
-            lw2 = PyLower({}, names={})
-            th = None
-            if isinstance(ie.test, ast.Compare) and len(ie.test.ops) == 1 and src_of(ie.test.left) == "i":
-                k = lw2.expr(ie.test.comparators[0], {}).const_value()
-                if isinstance(ie.test.ops[0], ast.Lt):
-                    th = k
-                elif isinstance(ie.test.ops[0], ast.LtE) and k is not None:
-                    th = k + 1
-            body = lw2.expr(ie.body, {})
-            other = lw2.expr(ie.orelse, {})
-            ok = th == (1 << (N - 1)) and body == V("i") and other == V("i") - C(1 << N)
-        res.inst(part="py", function=f"bp.int{N}", ok=ok)
+        sem = _wrap_semantics(fn.node, {k: v.node for k, v in bp.funcs.items()}, {})
+        ok = sem is not None and sem == ((1 << (N - 1)), 0, -(1 << N))
+        if sem is None:
+            res.unsure(f"D4: bp.int{N} is not a two-way choice on a threshold of its argument")
+            continue
+        res.inst(part="py", function=f"bp.int{N}", threshold=sem[0], below=f"i{sem[1]:+d}", from_threshold=f"i{sem[2]:+d}", ok=ok)
         if not ok:
             fd = Finding("D4", BP, fn.node.lineno, f"int{N}", src_of(rets[0].value) if rets else "", f"int{N}(i) must be i below 2**{N-1} and i - 2**{N} from there on", witness=f"int{N} holding {-(1 << (N-1))} (the minimum) or {(1 << (N-1)) - 1} (the maximum)", tag=f"bp.int{N}")
             fd.part = "py"
@@ -527,6 +604,44 @@ def d6(repo: Repo) -> RuleResult:
                 fd = Finding("D6", mod.rel, ra.node.lineno if ra else 0, f"{cname}.render_array", "", "array depth is not incremented before an element is rendered and restored afterwards", witness="byte[3] a: the accessor refers to `a` instead of `a[i]`", tag=f"{lang}:{cname}:depth")
                 fd.part = lang
                 res.bad(fd)
+    # traversal coverage of every item class (resolved through the MRO, so an override in a subclass is judged)
+    from .rules_a import type_domains
+
+    doms = type_domains(repo)
+    byte_leaf = {"Bool", "Byte", "Int", "Uint", "Enum"}
+    need = {
+        "byte": {"render": byte_leaf | {"Array", "Alias"}, "render_array": byte_leaf | {"Alias"}, "render_alias": {"Bool", "Byte", "Int", "Uint", "Array"}},
+        "accessor": {"render": {"Message", "Array", "Alias"}, "render_array": {"Message", "Alias"}, "render_alias": {"Array"}},
+    }
+    subj = {"render": "self.d.type", "render_array": "array.element_type", "render_alias": "alias.type"}
+    for lang, relsfx in (("py", "impls/py/renderer.py"), ("go", "impls/go/renderer.py")):
+        mod = m.mod(relsfx)
+        for c in mod.classes.values():
+            rs = m.lookup(c, "render_single")
+            rm = m.lookup(c, "render_message")
+            kind = "byte" if (rs is not None and "render_single" in c.methods) else ("accessor" if (rm is not None and "render_message" in c.methods) else None)
+            if kind is None or c.name.endswith("Base"):
+                continue
+            for meth, required in need[kind].items():
+                f0 = m.lookup(c, meth)
+                if f0 is None:
+                    res.unsure(f"D6: {c.name}.{meth} not found")
+                    continue
+                tested = set()
+                for n in ast.walk(f0.node):
+                    if isinstance(n, ast.Call) and isinstance(n.func, ast.Name) and n.func.id == "isinstance" and len(n.args) == 2 and src_of(n.args[0]) == subj[meth]:
+                        tested |= {x.id for x in ([n.args[1]] if isinstance(n.args[1], ast.Name) else getattr(n.args[1], "elts", [])) if isinstance(x, ast.Name)}
+                covered = set()
+                for k in required:
+                    kc = m.cls(k, "_ast.py")
+                    if any(any(b.name == t for b in m.mro(kc)) for t in tested):
+                        covered.add(k)
+                res.inst(part=lang, where=f"{c.name}.{meth}", defined_in=f0.cls.name if f0.cls else None, tested=sorted(tested))
+                miss = sorted(required - covered)
+                if miss:
+                    fd = Finding("D6", mod.rel, f0.node.lineno, f"{c.name}.{meth}", str(sorted(tested)), f"the traversal (as resolved for {c.name}: defined in {f0.cls.name if f0.cls else '?'}) does not descend into {miss}: fields reaching their leaf through such a type get no branch in the generated accessor", witness="type Row = int24[3]; message M { Row r = 1 }: no `case 1` in the generated sign-extension / byte accessor", tag=f"{lang}:{c.name}.{meth}:coverage")
+                    fd.part = lang
+                    res.bad(fd)
     # get byte items
     pg = m.func("impls/py/renderer.py", "BlockMessageMethodGetByteItem.render_single")
     fs = _fstrings(pg.node)
